@@ -6,6 +6,9 @@ ENGINES = [
     {"name": "progfuzz", "path": "vlib/gen, vlib/runner.py, vlib/props", "kind_free_text":
         "Hypothesis-generated program models -> gcc/clang -> libabigail tools; oracle computed from the model; 16 seeded workers; shrinking; 3x replay",
      "serves_properties": []},
+    {"name": "sched", "path": "cxx/c32_sched.cc, vlib/props/C32.py, /repo/src/verif-hooks.h", "kind_free_text":
+        "deterministic scheduler owning every pthread call of abg-workers.cc; stateless DFS over schedules with preemption bound; random schedules",
+     "serves_properties": []},
     {"name": "fuzz", "path": "cxx/fuzz_*.cc, vlib/fuzzprop.py", "kind_free_text":
         "libFuzzer targets (fork mode, 14+2 jobs) with semantic oracle and assertion capture inside the target; artifacts are re-run alone and keyed by assertion site / sanitizer error",
      "serves_properties": []},
@@ -24,6 +27,7 @@ HARNESSES = [
     (("c42_interned", "plain", ["c42_interned.cc"]), {"extra_ld": ["-lrapidcheck"]}),
     (("c27_regex", "plain", ["c27_regex.cc"]), {"extra_ld": ["-lrapidcheck"]}),
     (("c21_eqhash", "plain", ["c21_eqhash.cc"]), {"extra_ld": []}),
+    (("c32_sched", "plain", ["c32_sched.cc"]), {"extra_ld": []}),
     (("fuzz_abixml", "asan", ["fuzz_abixml.cc"]), {"extra_flags": ["-fsanitize=fuzzer-no-link", "-DVERIF_ASSERT_STRONG"], "extra_ld": ["-fsanitize=fuzzer"]}),
     (("fuzz_suppr", "asan", ["fuzz_suppr.cc"]), {"extra_flags": ["-fsanitize=fuzzer-no-link", "-DVERIF_ASSERT_STRONG"], "extra_ld": ["-fsanitize=fuzzer"]}),
 ]
@@ -83,6 +87,8 @@ REG = {
                 text="Generated struct changes (insert at random position, remove, shrink, retype) x access path x one violated constraint (type_kind, source_location_not_in, accessed_through, insertion ranges under every reading the manual allows, invalid regexp); only cases whose control passes count; one recorded defect (accessed_through = direct) is a known finding; exploration only.", note=_T1),
     "C25": dict(engine="fuzz", technique="coverage-guided fuzzing (libFuzzer in-process, ASan+UBSan, grammar-aware custom mutator) of the suppression / whitelist readers with the suppressions applied late and early to pre-loaded corpora",
                 text="Bytes -> read_suppressions and the KMI whitelist reader -> diff+report of three corpus pairs and a re-read of an ELF with the suppressions; sanitizer reports, aborts, assertions and reproducible hangs are violations; four crashes found this way were repaired; exploration only.", note=_T3),
+    "C32": dict(engine="sched", technique="stateful testing with a harness-owned schedule (bounded-exhaustive depth-first enumeration of schedules for small configurations + seeded random schedules for large ones); invariant over the history of each run",
+                text="The real worker queue runs under a deterministic scheduler installed through the LIBABIGAIL_VERIF hooks; every schedule with at most 2 preemptions and one spurious wake-up of 1-3 workers x 0-2 tasks is executed, plus random schedules up to 16 workers x 400 tasks; deadlock, a task performed other than once, a wrong completed list or a re-entrant notifier is a violation with the schedule as witness; exhaustive only within the stated bounds.", note="trusted base: the scheduler harness cxx/c32_sched.cc (mutex / condition-variable model), g++, pthreads; abg-workers.cc compiled with the hook guard on"),
     "C33": dict(engine="fuzz", technique="coverage-guided fuzzing (libFuzzer in-process, ASan+UBSan, structure-aware XML mutator, assertion capture) of the ABIXML reader + writer + self diff",
                 text="Bytes -> xml_reader::read_corpus_from_input -> write_corpus + self compute_diff; the reader validates its input with ABG_ASSERT / abort() at many places: each (file, function) site found by saturation campaigns is a known finding that the target survives, any other site, any sanitizer report or hang is a violation; exploration only.", note=_T3),
     "C26": dict(engine="progfuzz", technique="property-based testing (generated public/private header splits x one mutation; model-derived expected verdict under --headers-dir / --header-file / --drop-private-types, with a no-option control)",
